@@ -15,7 +15,7 @@ func main() {
 	n := flag.Int("n", 300, "number of parse-level cases")
 	e := flag.Int("e2e", 80, "number of end-to-end cases")
 	flag.Parse()
-	conslog.RunAll(conslog.RunOpts{Out: *out, Seed: *seed, NParse: *n, NE2E: *e, Tag: "c11", RCProb: 70,
+	conslog.RunAll(conslog.RunOpts{Out: *out, Seed: *seed, NParse: *n, NE2E: *e, Tag: "c11", RCProb: 70, NPipe: 24,
 		Formats: []conslog.Format{conslog.FTxn, conslog.FTxn, conslog.FCtrl},
 		// corpus: two aborted transactions in flight, abort then commit by one id, back-to-back aborts, three producers,
 		// a lone aborted transaction between plain batches, an abort marker without data
